@@ -139,4 +139,28 @@ theorem C17_import_order (hasPath a b c : Bool) :
 theorem C17_syspath (before : List String) (dir : String) : sysPathAfter before dir = before := by
   simp [sysPathAfter]
 
+/-- delete the LAST occurrence of `d`: the loop of the repaired `rel_or_abs_import` (fix 48933b6) -/
+def removeLast (d : String) (l : List String) : List String := (l.reverse.erase d).reverse
+
+/-- `sys.path.append(dir)`; the imported test script prepends `P` and appends `Q` to `sys.path` while it
+is imported; `finally`: the last occurrence of `dir` is deleted -/
+def sysPathAfterScript (before : List String) (dir : String) (P Q : List String) : List String :=
+  removeLast dir (P ++ (before ++ [dir]) ++ Q)
+
+/-- the module search path is left as it was, plus what the test script itself added — Lithium's
+temporary entry is gone wherever the script put its own (before the fix the last entry was popped:
+`sysPathPop` below, which loses the script's entry and keeps Lithium's) -/
+theorem C17_syspath_script (before : List String) (dir : String) (P Q : List String) (hq : dir ∉ Q) :
+    sysPathAfterScript before dir P Q = P ++ before ++ Q := by
+  unfold sysPathAfterScript removeLast
+  simp only [List.reverse_append, List.reverse_cons, List.reverse_nil, List.nil_append, List.append_assoc]
+  have hq' : dir ∉ Q.reverse := by simpa using hq
+  rw [List.erase_append_right _ hq']
+  simp
+
+/-- the behaviour before the fix, on a script that appends one entry: Lithium's entry stays, the
+script's is lost -/
+example : ((["a"] ++ ["tmpdir"] ++ ["helpers"]).dropLast, sysPathAfterScript ["a"] "tmpdir" [] ["helpers"])
+    = (["a", "tmpdir"], ["a", "helpers"]) := by decide
+
 end Cmdline
